@@ -3,7 +3,7 @@
 import json, os, shutil, sys, re
 pid, sfx, name, caught = sys.argv[1:5]
 note = sys.argv[5] if len(sys.argv) > 5 else ""
-src = "/tmp/seedout-%s" % sfx
+src = os.environ.get("OUT", "/tmp/seedout-%s" % sfx)
 dst = "/verif/seeded/%s" % name
 shutil.rmtree(dst, ignore_errors=True)
 os.makedirs(dst)
